@@ -31,12 +31,15 @@ CONSTANTS Shapes,       \* block shapes [name |-> STRING, ntx |-> Nat, logs |-> 
                         \* object), "exec" (ExecuteBlock + SubmitBlock on the object)
           Muts,         \* mutation records offered to Submit (see ValidMut)
           PreKinds,     \* pre-execution kinds
+          DuringKinds,  \* non-atomic pre-execution kinds that are also run WHILE a block is being committed
+          Points,       \* commit points of submitBlock at which they run: staged | blk | evt | st | cur
           W,            \* HEADER_INDEX_MAX_SIZE
           S,            \* BloomBitsBlocks
           BitsOf(_),    \* item -> set of bloom bit positions (bloom9 of the address / topic)
           BodyChecked,  \* named deviation: TRUE = design intent (a body that does not match the header's transaction
                         \* root is always refused); FALSE = the code as it is (only Block.Deserialization compares them)
           AllowRestart, \* BOOLEAN
+          AllowSync,    \* BOOLEAN: is SyncHeader (header sync ahead of the blocks) part of the behaviours
           FreshInits    \* set of initial values of `fresh`
 
 VARIABLES chain,      \* ghost: the shapes of the committed blocks 1..cur
@@ -53,6 +56,7 @@ VARIABLES chain,      \* ghost: the shapes of the committed blocks 1..cur
           evCur,      \* event store current height
           memCur,     \* LedgerStoreImp.currBlockHeight/currBlockHash
           hidx,       \* HeaderIndexCache [first, last, m]
+          hcache,     \* LedgerStoreImp.headerCache: ids of the headers added by AddHeader(s) and not yet committed
           bcache,     \* BlockStore.bloomCache: height -> bits
           fmem,       \* BlockStore.filterStart
           fresh,      \* TRUE iff nothing was committed since the ledger was (re)opened
@@ -60,7 +64,7 @@ VARIABLES chain,      \* ghost: the shapes of the committed blocks 1..cur
           act         \* history: the last action with arguments and result (not in the VIEW)
 
 durable == <<chain, hashAt, hdrOf, bodyOf, txAt, blkCur, bloomAt, bitIdx, stApplied, evTx, evCur>>
-memory  == <<memCur, hidx, bcache, fmem>>
+memory  == <<memCur, hidx, hcache, bcache, fmem>>
 vars == <<durable, fstart, memory, fresh, halt, act>>
 view == <<durable, fstart, memory, fresh, halt>>
 
@@ -152,7 +156,7 @@ Init == /\ chain = <<>>
         /\ bloomAt = <<{}>> /\ bitIdx = <<>> /\ stApplied = <<GenesisId>> /\ evTx = {} /\ evCur = 0
         /\ memCur = <<0, GenesisId>>
         /\ hidx = [first |-> 0, last |-> 0, m |-> (0 :> GenesisId)]
-        /\ bcache = (0 :> {})
+        /\ bcache = (0 :> {}) /\ hcache = {}
         /\ fresh \in FreshInits
         /\ fstart = IF fresh THEN 1 ELSE 0     \* a reopened ledger has stored its filter start (0, kept as 0+1)
         /\ fmem = 0
@@ -175,6 +179,7 @@ Commit(sh, m) ==
        /\ stApplied' = Append(stApplied, id)                                       \* saveBlockToStateStore
        /\ evTx' = evTx \cup Range(body) /\ evCur' = h                              \* saveBlockToEventStore
        /\ memCur' = <<h, id>>                                                      \* setCurrentBlock
+       /\ hcache' = hcache \ {id}                                                  \* delHeaderCache
        /\ UNCHANGED <<fstart, fmem>>
 
 Submit(p, sh, m) ==
@@ -187,6 +192,27 @@ Submit(p, sh, m) ==
                  /\ fresh' = FALSE
                  /\ halt' = ~BodyMatches(m)
             ELSE UNCHANGED <<durable, fstart, memory, fresh, halt>>
+
+(* A valid block is committed while a non-atomic pre-execution of kind k runs at commit point pt of submitBlock       *)
+(* (it does not take the block-saving lock).  A pre-execution works on its own overlay, so the outcome is exactly the    *)
+(* commit of the block: same post-state as Submit with the valid block.                                                 *)
+SubmitPre(p, sh, k, pt) ==
+    /\ ~halt /\ Cur < MaxBlocks
+    /\ Commit(sh, ValidMut)
+    /\ fresh' = FALSE /\ halt' = FALSE
+    /\ act' = [name |-> "Submit", path |-> p, shape |-> sh.name, mut |-> ValidMut, res |-> "ok", kind |-> k, point |-> pt]
+
+(* AddHeaders with the VALID header of a next block of shape sh (header sync runs ahead of the blocks): verifyHeader,  *)
+(* addHeaderCache, setHeaderIndex.  Nothing durable changes.  verifyHeader never consults the header cache: a block     *)
+(* delivered later is checked in full (Outcome does not depend on hcache).                                              *)
+SyncHeader(sh) ==
+    /\ ~halt /\ AllowSync
+    /\ hidx.last <= Cur                          \* AddHeader: height = current header height + 1 (one header ahead)
+    /\ LET id == Append(memCur[2], sh.name) IN
+         /\ hcache' = hcache \cup {id}
+         /\ hidx' = SetHeaderIndex(hidx, Cur, Cur + 1, id)
+    /\ act' = [name |-> "SyncHeader", shape |-> sh.name]
+    /\ UNCHANGED <<durable, fstart, memCur, bcache, fmem, fresh, halt>>
 
 PreExec(k) == /\ ~halt /\ act' = [name |-> "PreExec", kind |-> k]
               /\ UNCHANGED <<durable, fstart, memory, fresh, halt>>
@@ -203,12 +229,15 @@ Restart ==
           /\ fstart' = start + 1 /\ fmem' = start            \* GetOrSetFilterStart
           /\ bcache' = IF cur < start THEN <<>>
                        ELSE [x \in loadStart..cur |-> bloomAt[x + 1]]
+          /\ hcache' = {}                                   \* the header cache is not persistent
     /\ fresh' = TRUE
     /\ act' = [name |-> "Restart"]
     /\ UNCHANGED <<durable, halt>>
 
 Next == \/ \E p \in Paths, sh \in Shapes, m \in Muts : Submit(p, sh, m)
         \/ \E k \in PreKinds : PreExec(k)
+        \/ \E p \in Paths, sh \in Shapes, k \in DuringKinds, pt \in Points : SubmitPre(p, sh, k, pt)
+        \/ \E sh \in Shapes : SyncHeader(sh)
         \/ Restart
 Spec == Init /\ [][Next]_vars
 
@@ -225,7 +254,9 @@ Coherent ==
            /\ (halt \/ h = 0 \/ Len(bodyOf[id]) = chain[h].ntx)
            /\ \A j \in DOMAIN bodyOf[id] :                     \* transactions by hash, with their height
                 bodyOf[id][j] \in DOMAIN txAt /\ txAt[bodyOf[id][j]] = h
-    /\ GetBlockHash(Cur + 1) = NONE                            \* nothing is named above the current height
+    \* above the current height only a synced header is named
+    /\ (GetBlockHash(Cur + 1) = NONE \/ (GetBlockHash(Cur + 1) \in hcache /\ hidx.last = Cur + 1))
+    /\ GetBlockHash(Cur + 2) = NONE
     /\ Len(stApplied) = Cur + 1 /\ evCur = Cur
 
 (* C39 *)
